@@ -4,10 +4,13 @@
 set -e
 cd "$(dirname "$0")"
 export CARGO_NET_OFFLINE=true
-PROPS=$(python3 -c "import json;print(' '.join('GcArena.Props.'+c['property_id'] for c in json.load(open('MANIFEST.json'))['checks']))")
+PROPS=$(python3 -c "
+import json, os
+ids = [c['property_id'] for c in json.load(open('MANIFEST.json'))['checks']]
+print(' '.join('GcArena.Props.' + m for i in ids for m in (i, i + 's') if os.path.exists('lean/GcArena/Props/' + m + '.lean')))")
 EXES=$(grep -A1 '^\[\[lean_exe\]\]' lean/lakefile.toml | grep '^name' | sed 's/name = "\(.*\)"/\1/' | tr '\n' ' ')
 (cd lean && lake build $EXES $PROPS)
-for d in harness extract_brand extract harness_layout harness_collect; do
+for d in harness extract_brand extract harness_layout harness_collect harness_dynroots; do
   if [ -f "$d/Cargo.toml" ]; then
     [ -f "$d/Cargo.lock" ] || cp /repo/Cargo.lock "$d/Cargo.lock"
     (cd "$d" && cargo build --offline) || echo "setup: building $d failed (its check will report it)"
